@@ -1,5 +1,5 @@
 #!/usr/bin/env python3
-"""Gen/HostFns.v from lib/src/wasm/mod.rs, lib/src/scanner/matches.rs, the math / hash /
+"""Gen/HostFns.v from lib/src/wasm/mod.rs, lib/src/wasm/string.rs, lib/src/scanner/matches.rs, the math / hash /
 string / console modules and lib/src/compiler/emit.rs.
 
 For every `#[wasm_export]` function of wasm/mod.rs (macro-generated ones are expanded with
@@ -669,6 +669,57 @@ def emit_facts(emit):
     return facts
 
 
+# ------------------------------------------------------------------ wasm/string.rs
+STRING_RS = "lib/src/wasm/string.rs"
+
+
+def string_facts(text):
+    """the ASCII fast paths of the case-insensitive string operators: which length guards
+    precede the slicing / subtraction / windows() of each helper, and whether the four
+    operators dispatch on `this.is_ascii() && other.is_ascii()`"""
+    text = strip_comments(text)
+    fns = parse_fns(text, STRING_RS)
+    def body(name):
+        if name not in fns: raise TranslateError(f"string.rs: fn {name} not found")
+        return re.sub(r"\s+", "", fns[name].body)
+    f = {}
+    b = body("starts_with_ascii_case_insensitive")
+    core = "haystack[..prefix.len()].eq_ignore_ascii_case(prefix)"
+    if b == "haystack.len()>=prefix.len()&&" + core: f["starts_len"] = True
+    elif b == core: f["starts_len"] = False
+    else: raise TranslateError("starts_with_ascii_case_insensitive: unknown shape " + b[:120])
+    b = body("ends_with_ascii_case_insensitive")
+    core = "haystack[haystack.len()-suffix.len()..].eq_ignore_ascii_case(suffix)"
+    if b == "haystack.len()>=suffix.len()&&" + core: f["ends_len"] = True
+    elif b == core: f["ends_len"] = False
+    else: raise TranslateError("ends_with_ascii_case_insensitive: unknown shape " + b[:120])
+    b = body("contains_ascii_case_insensitive")
+    g1, g2 = "ifneedle.is_empty(){returntrue;}", "ifneedle.len()>haystack.len(){returnfalse;}"
+    core = "haystack.windows(needle.len()).any(|window|window.eq_ignore_ascii_case(needle))"
+    f["contains_empty"] = b.startswith(g1)
+    rest = b[len(g1):] if f["contains_empty"] else b
+    f["contains_longer"] = rest.startswith(g2)
+    rest = rest[len(g2):] if f["contains_longer"] else rest
+    if rest != core: raise TranslateError("contains_ascii_case_insensitive: unknown shape " + b[:160])
+    # dispatch of the four operators
+    helper = {"contains": "contains_ascii_case_insensitive(this.as_bytes(),other.as_bytes(),)",
+              "starts_with": "starts_with_ascii_case_insensitive(this.as_bytes(),other.as_bytes(),)",
+              "ends_with": "ends_with_ascii_case_insensitive(this.as_bytes(),other.as_bytes(),)",
+              "equals": "this.as_bytes().eq_ignore_ascii_case(other.as_bytes())"}
+    slow = {"contains": "this.contains_str(other)", "starts_with": "this.starts_with_str(other)", "ends_with": "this.ends_with_str(other)", "equals": "this.eq(&other)"}
+    plain = {"contains": "self.as_bstr(ctx).contains_str(other.as_bstr(ctx))", "starts_with": "self.as_bstr(ctx).starts_with_str(other.as_bstr(ctx))",
+             "ends_with": "self.as_bstr(ctx).ends_with_str(other.as_bstr(ctx))", "equals": "self.as_bstr(ctx).eq(other.as_bstr(ctx))"}
+    for name in ("contains", "starts_with", "ends_with", "equals"):
+        want = ("ifcase_insensitive{letthis=self.as_bstr(ctx);letother=other.as_bstr(ctx);ifthis.is_ascii()&&other.is_ascii(){" + helper[name] +
+                "}else{letthis=this.to_lowercase();letother=other.to_lowercase();" + slow[name] + "}}else{" + plain[name] + "}")
+        if body(name) != want:
+            raise TranslateError(f"string.rs: RuntimeString::{name} no longer has the shape `case_insensitive ? (ascii ? fast path : to_lowercase) : bstr`")
+    for name, meth in (("eq", "eq"), ("ne", "ne"), ("lt", "lt"), ("gt", "gt"), ("le", "le"), ("ge", "ge")):
+        if body(name) != f"self.as_bstr(ctx).{meth}(other.as_bstr(ctx))":
+            raise TranslateError(f"string.rs: RuntimeString::{name} is no longer a plain bstr comparison")
+    return f
+
+
 # ------------------------------------------------------------------ main
 def exported_table(text, origin, export_attr, extra_fns=None, prefix=""):
     fns = parse_fns(text, origin)
@@ -725,6 +776,7 @@ def main():
     if not last: raise TranslateError("eval_conditions: cannot classify the arm for non-ScanError errors (WASM traps)")
     facts["traps_panic"] = last.group(1) in ("panic!", "unreachable!")
 
+    sfacts = string_facts(src(STRING_RS))
     # known-unsafe allow list from known_findings.jsonl
     known = []
     kf = os.path.join(os.path.dirname(os.path.abspath(__file__)), "..", "known_findings.jsonl")
@@ -770,6 +822,8 @@ def main():
     lines.append(f"Definition trapping_truncs_outside_emit_for : Z := {facts['trunc_outside_emit_for']}.")
     lines.append("(* scanner/context.rs eval_conditions: an error of WASM main that is not a ScanError (a trap) is turned into panic! *)")
     lines.append(f"Definition traps_become_panics : bool := {b(facts['traps_panic'])}.")
+    lines.append("(* wasm/string.rs: length guards of the ASCII fast paths of icontains / istartswith / iendswith\n   (needle empty -> true; needle longer -> false; haystack.len() >= prefix.len(); haystack.len() >= suffix.len()) *)")
+    lines.append(f"Definition str_guards : sguards := mkSGuards {b(sfacts['contains_empty'])} {b(sfacts['contains_longer'])} {b(sfacts['starts_len'])} {b(sfacts['ends_len'])}.")
     write_if_changed("HostFns.v", "\n".join(lines) + "\n")
 
 
